@@ -4,7 +4,7 @@
 set -e
 export CARGO_NET_OFFLINE=true
 cd /verif/coq
-coq_makefile -f _CoqProject -o Makefile
+python3 /verif/tools/mkproject.py
 timeout 3000 make -j16
 cd /verif/harness
 [ -f Cargo.lock ] || cp /repo/Cargo.lock .
